@@ -223,4 +223,6 @@ def selftest_binding(prop, cases, wd: Path, o: Outcome, corrupt):
                 raise Machinery("binding self test: corrupted observation was accepted")
             o.notes["binding_selftest"] = "rejected: " + rej[0][0]["clause"]
             return
-    raise Machinery("binding self test: no case could be corrupted")
+    if len(cases) > 0:
+        raise Machinery("binding self test: no case could be corrupted")
+    o.notes["binding_selftest"] = "skipped: every case was rejected"
